@@ -3,6 +3,7 @@ package interp
 // Engine side of the harness prelude (type VerifV in the harness package).
 
 import (
+	"crypto/sha256"
 	"fmt"
 	"go/types"
 	"math/big"
@@ -268,13 +269,43 @@ func (pc *pathCtx) uf(name string, injective bool, outLen int, args [][]value) [
 		rels = append(rels, rel{eq, p})
 	}
 	out := make([]*Term, outLen)
-	for i := range out {
-		out[i] = pc.fresh(fmt.Sprintf("%s_o%d", name, i), 8)
+	allConc := true
+	for _, a := range call.args {
+		if a != nil && a.op != OpConst {
+			allConc = false
+		}
+	}
+	if allConc {
+		// fully concrete arguments: a fixed pseudo-random value (SHA-256 derived), as a real
+		// hash would give; calls with symbolic arguments are still related to it below.
+		h := sha256.New()
+		h.Write([]byte(name))
+		for j, a := range call.args {
+			fmt.Fprintf(h, "|%d:", call.lens[j])
+			if a != nil {
+				h.Write(a.val.Bytes())
+			}
+		}
+		seed := h.Sum(nil)
+		for i := range out {
+			if i > 0 && i%32 == 0 {
+				hh := sha256.Sum256(seed)
+				seed = hh[:]
+			}
+			out[i] = st.BVu(uint64(seed[i%32]), 8)
+		}
+	} else {
+		for i := range out {
+			out[i] = pc.fresh(fmt.Sprintf("%s_o%d", name, i), 8)
+		}
 	}
 	call.out = out
 	pc.ufCalls[name] = append(prev, call)
 	oT := bytesTerm(st, termsToVals(out))
 	for _, r := range rels {
+		if r.eq.isFalse() && !injective {
+			continue
+		}
 		if len(r.p.out) != outLen {
 			continue
 		}
@@ -291,7 +322,11 @@ func (pc *pathCtx) uf(name string, injective bool, outLen int, args [][]value) [
 func termsToVals(ts []*Term) []value {
 	out := make([]value, len(ts))
 	for i, t := range ts {
-		out[i] = t
+		if t.op == OpConst {
+			out[i] = uint8(t.val.Uint64())
+		} else {
+			out[i] = t
+		}
 	}
 	return out
 }
